@@ -1,7 +1,7 @@
 //! C17 — host extension points are called exactly as documented.
 
 use crate::checks::c01::{Verdict, inputs};
-use crate::checks::hostrun::judge_hosted;
+use crate::checks::hostrun::judge_hosted_mode;
 use crate::engine::core::*;
 use crate::engine::tape::{Tape, fnv};
 use crate::model::astgen::{self, Alphabet};
@@ -72,10 +72,15 @@ impl C17Check {
         for layout in layouts {
             let text = render(&toks, *layout);
             for (hname, state) in hosts() {
-                for imp in Impl::BOTH {
+                // SimpleGarnishData also as a copy made after the build (build once, copy per execution), for small programs
+                let small = toks.len() <= 9;
+                for (imp, on_copy) in [(Impl::Simple, false), (Impl::Basic, false), (Impl::Simple, true)] {
+                    if on_copy && !small {
+                        continue;
+                    }
                     ctx.sub_evals += 1;
                     let mut used = vec![];
-                    match judge_hosted(imp, &text, &toks, &reference, input, &state, &mut used, &externals_of(&state)) {
+                    match judge_hosted_mode(imp, on_copy, &text, &toks, &reference, input, &state, &mut used, &externals_of(&state)) {
                         Verdict::Agree => {
                             judged = true;
                             if used.contains(&"identifier-from-input") {
@@ -91,7 +96,7 @@ impl C17Check {
                         Verdict::Skip(w) => ctx.class(if w == "layout-merge" { "layout-merge" } else { "reference-undefined" }),
                         Verdict::Fail(kind, detail) => {
                             judged = true;
-                            ctx.fail(format!("{}:{}", kind, root_def(ast)), format!("{:?} with $ = {} under host {} on {}: {}", text, input, hname, imp.name(), detail));
+                            ctx.fail(format!("{}:{}", kind, root_def(ast)), format!("{:?} with $ = {} under host {} on {}{}: {}", text, input, hname, imp.name(), if on_copy { " (run on a clone_with_aux_without_data copy made after the build)" } else { "" }, detail));
                         }
                     }
                 }
@@ -113,7 +118,7 @@ impl Check for C17Check {
     }
     fn rule(&self) -> String {
         "Phase exhaustive: every AST with at most k nodes (k=5 quick, 6 thorough) over identifiers a, b (unknown to the input), f, g (bound to External values in the input), k (bound to a number in the input), `1`, `$` and the constructs `~~`, `{ }`, `!!`, `<~`, `~>`, `?>`, `|>`, `&&`, `||`, `=`, space list, `+`, `;`, \
-         run with the input (:k = 3, :f = external 7, :g = external 8) (ASTs of up to 4 nodes also with the same associations as a concatenation nested to the right) under 4 scripted recording hosts (resolving none / some / all identifiers, answering external 7 only / both / none) on both data implementations; phase random: larger core-language ASTs with identifiers in every position, inputs of C01, spaced and tight layout. \
+         run with the input (:k = 3, :f = external 7, :g = external 8) (ASTs of up to 4 nodes also with the same associations as a concatenation nested to the right) under 4 scripted recording hosts (resolving none / some / all identifiers, answering external 7 only / both / none) on both data implementations (programs of up to 9 tokens also on a clone_with_aux_without_data copy of the SimpleGarnishData they were built into); phase random: larger core-language ASTs with identifiers in every position, inputs of C01, spaced and tight layout. \
          Oracle: the host's call trace (resolve(symbol) and, on BasicGarnishData, apply(external, argument read back)) equals the reference evaluator's event trace in order and multiplicity — input lookup first, one resolve per evaluated unresolved occurrence, one apply per applied external — and the final value equals the reference value (declined => unit, accepted => exactly the host's value). \
          Non-trivial = judged program with >= 2 identifier occurrences, >= 2 reference host events under some host and at least one identifier answered from the input; distinct = distinct (AST, input)."
             .to_string()
